@@ -16,6 +16,7 @@ ASSUME = [
 _RE_OK = re.compile(r'"C20-PART-OK", "(\w+)", (\d+), (\d+), (\d+), (\d+)')
 _RE_DRIFT = re.compile(r'"C20-DRIFT", "([^"]+)", "line", (\d+)')
 _RE_FAIL = re.compile(r'"C20-FAIL", "([^"]+)", "line", (\d+)')
+_RE_CASE = re.compile(r'<<\s*"C20-CASE".*?>>\n(?=\S)', re.S)
 
 
 def _minimise(fp, line_no, scratch):
@@ -33,7 +34,7 @@ def _minimise(fp, line_no, scratch):
 
 def validate(sc, cfg, files, kind, parallel=8, timeout=3000, replay=False):
     """Validate every part file with its own TLC (workers=1: the high-water mark needs it)."""
-    env = {"JAVA_TOOL_OPTIONS": "-Xmx6g"}
+    env = {"JAVA_TOOL_OPTIONS": "-Xmx6g -XX:ParallelGCThreads=2"}
     if replay:
         env["C20_REPLAY"] = "1"
 
@@ -49,8 +50,9 @@ def validate(sc, cfg, files, kind, parallel=8, timeout=3000, replay=False):
             kf.update(res["kf"])
             for m in _RE_DRIFT.finditer(res["out"]):
                 drift.append({"what": m.group(1), "file": os.path.basename(fp), "line": int(m.group(2))})
+            case = _RE_CASE.search(res["out"])
             for m in _RE_FAIL.finditer(res["out"]):
-                why.append((m.group(1), os.path.basename(fp), int(m.group(2))))
+                why.append((m.group(1), os.path.basename(fp), int(m.group(2)), " ".join(case.group(0).split()) if case else ""))
             if res["rejected_at"] is not None:
                 mfp, mline = _minimise(fp, res["rejected_at"], sc)
                 rej.append((mfp, mline, res))
@@ -75,32 +77,76 @@ def validate(sc, cfg, files, kind, parallel=8, timeout=3000, replay=False):
             "complete": bool(complete), "drift": drift, "why": why}
 
 
+def model(sc, cfg, workers, expect=None, timeout=2400):
+    """V.model_check with a bounded number of GC threads (the machine is shared)."""
+    res = V.run_tlc(sc, "Auth", "AuthMC.tla", cfg, workers=workers, timeout=timeout,
+                    env_extra={"JAVA_TOOL_OPTIONS": "-XX:ParallelGCThreads=4"})
+    if res["violated"]:
+        if expect and res["violated"] in expect:
+            V.log("model Auth/%s: expected counterexample for %s (observation only)" % (cfg, res["violated"]))
+        else:
+            raise V.Broken("model Auth/%s violates %s - the specification itself is inconsistent:\n%s" %
+                           (cfg, res["violated"], V._tail(res["out"], 60)))
+    V.log("model Auth/%s: %d states, %d distinct, %.1fs" % (cfg, res["states"], res["distinct"], res["wall"]))
+    return res
+
+
+def report(R, val, what):
+    """Known-finding hits once; every rejection with the offending case spelled out by TLC."""
+    R.handle_validation({"kf": val["kf"], "rejections": []})
+    for rej in val["rejections"][:3]:
+        m = _RE_FAIL.search(rej[2]["out"])
+        case = _RE_CASE.search(rej[2]["out"])
+        w = what + ((" [%s]" % m.group(1)) if m else "") + ((" " + " ".join(case.group(0).split())) if case else "")
+        R.handle_validation({"kf": set(), "rejections": [rej]}, w)
+
+
 def run(sc, tier, seed):
     R = V.Result("C20", tier, seed)
-    # design level: every grant table of the universe; the HTTP filter chain for every request
-    R.add_model(V.model_check(sc, "Auth", "AuthMC.tla", "Auth_%s.cfg" % tier, timeout=2400))
-    R.add_model(V.model_check(sc, "Auth", "AuthMC.tla", "AuthHttp_%s.cfg" % tier, timeout=2400))
-    # observation: the property as stated (strict injectivity of the database mapping) fails in the model of the code
-    V.model_check(sc, "Auth", "AuthMC.tla", "Auth_dbstrict.cfg", workers=2, timeout=600, expect_violation={"DbMapInjectiveStrict"})
-    # B1: the same universe on the real auth.User / APIResource / DatabaseResource
-    out, meta = V.run_driver(sc, "c20", tier, seed)
+    V.build_harness("c20")
+
+    def direct():
+        # B1: the universe of the model on the real auth.User / APIResource / DatabaseResource
+        out, meta = V.run_driver(sc, "c20", tier, seed)
+        return meta, validate(sc, "AuthTrace_%s.cfg" % tier, meta["trace_files"], "direct")
+
+    def http():
+        # B1: the real httpd.Handler
+        out, meta = V.run_driver(sc, "c20http", tier, seed)
+        return meta, validate(sc, "AuthHttpTrace_%s.cfg" % tier, meta["trace_files"], "http")
+
+    # the four legs are independent: run them side by side
+    with concurrent.futures.ThreadPoolExecutor(max_workers=5) as ex:
+        # design level: every grant table of the universe; the HTTP filter chain for every request
+        f_m1 = ex.submit(model, sc, "Auth_%s.cfg" % tier, 8)
+        f_m2 = ex.submit(model, sc, "AuthHttp_%s.cfg" % tier, 12)
+        # observation: the property as stated (strict injectivity of the database mapping) fails in the model of the code
+        f_m3 = ex.submit(model, sc, "Auth_dbstrict.cfg", 1, {"DbMapInjectiveStrict"}, 600)
+        f_d = ex.submit(direct)
+        f_h = ex.submit(http)
+        futs = [f_m1, f_m2, f_m3, f_d, f_h]
+        concurrent.futures.wait(futs)
+    R.add_model(f_m1.result())
+    R.add_model(f_m2.result())
+    strict = f_m3.result()
+    meta, val = f_d.result()
+    meta2, val2 = f_h.result()
     R.add_meta(meta)
-    val = validate(sc, "AuthTrace_%s.cfg" % tier, meta["trace_files"], "direct")
     R.states += val["states"]
-    R.handle_validation(val, "decision of the real code rejected by the specification")
-    # B1: the real httpd.Handler
-    out2, meta2 = V.run_driver(sc, "c20http", tier, seed)
+    report(R, val, "decision of the real code rejected by the specification")
     R.add_meta(meta2)
-    val2 = validate(sc, "AuthHttpTrace_%s.cfg" % tier, meta2["trace_files"], "http")
     R.states += val2["states"]
-    R.handle_validation(val2, "HTTP outcome of the real handler rejected by the specification")
+    report(R, val2, "HTTP outcome of the real handler rejected by the specification")
     drift = val["drift"] + val2["drift"]
     extra = {
+        "evaluations": meta["events"] + meta2["events"],
         "validated_cases": val["cases"] + val2["cases"],
         "validated_tables": val["tables"] + val2["tables"],
         "universe_complete": bool(val["complete"] and val2["complete"]),
         "impl_drift": drift[:20],
         "impl_drift_count": len(drift),
+        "rejected_because": [list(w) for w in (val["why"] + val2["why"])[:10]],
+        "strict_db_injectivity_counterexample_in_model": strict["violated"] == "DbMapInjectiveStrict",
     }
     if drift:
         V.log("impl drift (code no longer matches the code-shaped model, property still holds): %s" % drift[:5])
